@@ -42,6 +42,8 @@ OPS = {
     "drop": ("drop", "n"),
     "upd": ("upd", ("tag", "k", "==", "a"), {"fields": {"f": SYM}}),
     "upd_time": ("upd", ("tag", "k", "==", "a"), {"time": ("static", SYM)}),
+    "upd_fail": ("upd_fail", ("tag", "k", "!=", "zz"), "fields"),
+    "insm_fail": ("insm_fail", 1),
     "read": ("read", ("time", ">=", SYM)),
     "all": ("all",),
     "reindex": ("reindex",),
@@ -143,6 +145,7 @@ def obligations(tier):
     obs = []
     names = list(OPS)
     mut = [n for n in names if n not in ("read", "all", "reindex")]
+    names_d2 = names
     depth = 2 if not th else 3
     seqs = []
     for d in range(1, depth + 1):
